@@ -191,11 +191,11 @@ def correspond(ctx, proof_ok=True):
         if v == 0:
             continue
         c, r = calls[i], results[i]
-        diag = cc.show('diagnose %s' % t)
         sig = 'C08:%s:%s' % (c['opt']['kind'], 'property' if v & 2 else 'model')
         if sig in seen:
             continue
         seen.add(sig)
+        diag = cc.show('diagnose %s' % t)
         if v & 2:
             ctx.violation(sig, 'implementation output contradicts the Cox-de Boor / knot / mask specification (%s, nord=%d)' % (
                 c['opt']['kind'], c['nord']),
